@@ -26,6 +26,16 @@ for i in sorted(os.listdir(out)):
                                  "result": kind, "violation_lines": len(viol), "summary": summary[-1] if summary else "", "exit": exitl[-1] if exitl else ""}})
     dst = os.path.join(ROOT, "seeded", "%s-%s%s" % (pid, label, i))
     os.makedirs(dst, exist_ok=True)
+    oldp = os.path.join(dst, "meta.json")
+    if os.path.exists(oldp):
+        try:
+            old = json.load(open(oldp))
+            if old.get("strengthened"): meta["strengthened"] = old["strengthened"]
+            hist = old.get("detection_history", [])
+            prev = old.get("detected_by", {}).get("result")
+            if prev and (not hist or hist[-1] != prev): hist.append(prev)
+            meta["detection_history"] = hist
+        except Exception: pass
     shutil.copy(os.path.join(d, "patch.diff"), dst); shutil.copy(os.path.join(d, "demo_test.go"), dst)
     json.dump(meta, open(os.path.join(dst, "meta.json"), "w"), indent=1)
     print("%s-%s%s: %s | %s" % (pid, label, i, confirmed[:40], kind))
